@@ -4,7 +4,6 @@ import (
 	"bytes"
 	"fmt"
 	"io"
-	"sort"
 	"testing"
 
 	"github.com/google/gce-tcb-verifier/eventlog"
@@ -178,13 +177,15 @@ func mutate(t *rapid.T, e *renc) (string, string, []byte) {
 			if k == len(b) && len(e.fields) > 1 {
 				k = e.fields[len(e.fields)-2]
 			}
-			name := "end"
-			for _, s := range e.segs {
-				if s.lo == k {
-					name = s.name
+			if k < len(b) {
+				name := "end"
+				for _, s := range e.segs {
+					if s.lo == k {
+						name = s.name
+					}
 				}
+				return "truncate-at-field", name, b[:k]
 			}
-			return "truncate-at-field", name, b[:k]
 		}
 	case 2:
 		if len(b) > 0 {
@@ -265,7 +266,10 @@ func cstrCodec() *codec {
 		name: "el/cstr", what: "ByteSizedCStr: size byte (string length + terminator, <= 255) then the bytes and a 0 terminator",
 		gen: func(t *rapid.T) (any, string, bool) {
 			s, b := genCStr(t, "s")
-			return s, fmt.Sprintf("len=%d", map[bool]int{true: len(s), false: -1}[b]), b
+			if b {
+				return s, fmt.Sprintf("len=%d", len(s)), b
+			}
+			return s, "len=2..12", b
 		},
 		ref: func(m any) *renc { e := &renc{}; e.cstr("str", m.(string)); return e },
 		enc: func(m any, _ bool) ([]byte, error) { return marshal(&eventlog.ByteSizedCStr{Data: m.(string)}) },
@@ -434,15 +438,15 @@ func logCodec() *codec {
 	}
 }
 
-func TestElCStr(t *testing.T)        { runCodec(t, cstrCodec(), ev.Scale(800, 10000)) }
-func TestElU32Array(t *testing.T)    { runCodec(t, arrCodec(), ev.Scale(800, 10000)) }
-func TestElEfiGUID(t *testing.T)     { runCodec(t, guidCodec(), ev.Scale(400, 5000)) }
-func TestElTaggedDigest(t *testing.T) { runCodec(t, digestCodec(), ev.Scale(600, 8000)) }
-func TestElDigests(t *testing.T)     { runCodec(t, digestsCodec(), ev.Scale(800, 10000)) }
-func TestElEventData(t *testing.T)   { runCodec(t, dataCodec(), ev.Scale(800, 10000)) }
+func TestElCStr(t *testing.T)          { runCodec(t, cstrCodec(), ev.Scale(800, 10000)) }
+func TestElU32Array(t *testing.T)      { runCodec(t, arrCodec(), ev.Scale(800, 10000)) }
+func TestElEfiGUID(t *testing.T)       { runCodec(t, guidCodec(), ev.Scale(400, 5000)) }
+func TestElTaggedDigest(t *testing.T)  { runCodec(t, digestCodec(), ev.Scale(600, 8000)) }
+func TestElDigests(t *testing.T)       { runCodec(t, digestsCodec(), ev.Scale(800, 10000)) }
+func TestElEventData(t *testing.T)     { runCodec(t, dataCodec(), ev.Scale(800, 10000)) }
 func TestElPCClientEvent(t *testing.T) { runCodec(t, hdrCodec(), ev.Scale(800, 10000)) }
-func TestElPCREvent2(t *testing.T)   { runCodec(t, ev2Codec(), ev.Scale(800, 10000)) }
-func TestElLog(t *testing.T)         { runCodec(t, logCodec(), ev.Scale(800, 10000)) }
+func TestElPCREvent2(t *testing.T)     { runCodec(t, ev2Codec(), ev.Scale(800, 10000)) }
+func TestElLog(t *testing.T)           { runCodec(t, logCodec(), ev.Scale(800, 10000)) }
 
 // ---------------------------------------------------------------------------------------------
 // SP800-155 Event3 (decoded from a byte slice, not a reader)
@@ -556,7 +560,10 @@ func TestElOutOfRange(t *testing.T) {
 		}
 	}
 	for _, a := range []uint16{0, 0xD, 0x12, 0xFFFF} {
-		cases = append(cases, tc{fmt.Sprintf("digest/alg=%#x", a), func() error { _, err := marshal(&eventlog.TaggedDigest{AlgID: a, Digest: make([]byte, 20)}); return err }, false})
+		cases = append(cases, tc{fmt.Sprintf("digest/alg=%#x", a), func() error {
+			_, err := marshal(&eventlog.TaggedDigest{AlgID: a, Digest: make([]byte, 20)})
+			return err
+		}, false})
 	}
 	for _, a := range algs {
 		for _, d := range []int{-1, 0, 1} {
@@ -687,14 +694,4 @@ func TestElLogTruncation(t *testing.T) {
 			})
 		}
 	})
-}
-
-// field names in evidence are easier to read sorted; keep the helper local.
-func sortedKeys(m map[string]int) []string {
-	var ks []string
-	for k := range m {
-		ks = append(ks, k)
-	}
-	sort.Strings(ks)
-	return ks
 }
